@@ -375,11 +375,10 @@ static tainted<long, Sbx> filler_cb(RS&, tainted<long, Sbx> x)
 {
   return x + K;
 }
-#if defined(BK_VM)
-static const int CAPACITY = 4;
-#else
-static const int CAPACITY = 64;
-#endif
+// entry points the backend offers per sandbox: measured at start (measure_capacity), not assumed;
+// -1 = more than the pool of filler functions, in which case nothing is ever "full"
+static int CAPACITY = -1;
+static const int NFILLERS = 130;
 using FillerFn = tainted<long, Sbx> (*)(RS&, tainted<long, Sbx>);
 template<int... Ks>
 static std::vector<FillerFn> filler_table(std::integer_sequence<int, Ks...>)
@@ -387,12 +386,37 @@ static std::vector<FillerFn> filler_table(std::integer_sequence<int, Ks...>)
   return { &filler_cb<Ks>... };
 }
 static std::vector<Owner> fillers[NSB];
+static const std::vector<FillerFn>& filler_fns()
+{
+  static const std::vector<FillerFn> fns = filler_table(std::make_integer_sequence<int, NFILLERS>{});
+  return fns;
+}
+// occupies all but two of the backend's entry points (CAPACITY - 2 fillers)
 static void fill_entries(int si)
 {
-  static const std::vector<FillerFn> fns = filler_table(std::make_integer_sequence<int, 62>{});
   for (int k = 0; k < CAPACITY - 2; k++) {
-    fillers[si].push_back(sb[si]->register_callback(fns[k]));
+    fillers[si].push_back(sb[si]->register_callback(filler_fns()[k]));
   }
+}
+// distinct callbacks are registered on a fresh sandbox until the first refusal
+template<typename Create>
+static void measure_capacity(Create&& create)
+{
+  RS probe;
+  create(probe);
+  std::vector<Owner> held;
+  int n = 0;
+  try {
+    for (auto f : filler_fns()) {
+      held.push_back(probe.register_callback(f));
+      n++;
+    }
+    n = -1; // more entry points than fillers
+  } catch (const std::runtime_error&) {
+  }
+  held.clear();
+  probe.destroy_sandbox();
+  CAPACITY = n;
 }
 
 static void teardown()
@@ -439,6 +463,19 @@ int main(int argc, char** argv)
     }
     if (op == "reset") {
       teardown();
+      static bool measured = false;
+      if (!measured) {
+        measured = true;
+        measure_capacity([&](RS& p) {
+#if defined(BK_VM)
+          p.create_sandbox(&lib1);
+#elif defined(BK_DYLIB)
+          p.create_sandbox(argv[3]);
+#else
+          p.create_sandbox();
+#endif
+        });
+      }
       for (int i = 0; i < NSB; i++) {
         sb[i] = std::make_unique<RS>();
 #if defined(BK_VM)
@@ -550,7 +587,7 @@ int main(int argc, char** argv)
       tr::Ev e("reg");
       e.str("s", a1).str("f", a2).str("slot", a2);
       // (the harness' own count: is every entry point of the backend handed out already?)
-      e.boolean("full", owners[si].count(a2) == 0 && (int)(owners[si].size() + fillers[si].size()) >= CAPACITY);
+      e.boolean("full", CAPACITY >= 0 && owners[si].count(a2) == 0 && (int)(owners[si].size() + fillers[si].size()) >= CAPACITY);
       try {
         owners[si].erase(a2);
         auto o = sb[si]->register_callback(cb_by_name(a2));
